@@ -487,7 +487,8 @@ def gen_gp_spec(rng):
     return dict(seed=rng.randrange(10 ** 6), d=d, n=n, pending=rng.choice([0, 1, 2]), nf=rng.choice([1, 2, 3]),
                 head=rng.choice(["ei", "lcb", "eipu", "cei"]), kappa=rng.uniform(0.3, 3.0),
                 expo=rng.choice([1.0, 0.5]), jitter=rng.choice([0.01, 0.1]),
-                x=[rng.uniform(0.05, 0.95) for _ in range(d)], normalize=rng.random() < 0.7)
+                x=[rng.uniform(0.05, 0.95) for _ in range(d)], normalize=rng.random() < 0.7,
+                explicit=rng.random() < 0.5)
 
 
 def build_gp_predictor(spec, metric, fn, seed_shift=0):
@@ -510,58 +511,209 @@ def build_gp_predictor(spec, metric, fn, seed_shift=0):
     return est.fit_from_state(state, update_params=True)
 
 
+def _gp_models(spec, M, seed_off=0):
+    """(constructor arguments of the acquisition class, predictor object/dict) for one fitted surrogate set"""
+    from syne_tune.optimizer.schedulers.searchers.bayesopt.datatypes.common import INTERNAL_METRIC_NAME, INTERNAL_CONSTRAINT_NAME
+    sp = dict(spec, seed=spec["seed"] + seed_off)
+    w = np.random.RandomState(sp["seed"] + 7).normal(size=sp["d"])
+    act = build_gp_predictor(sp, INTERNAL_METRIC_NAME, lambda x: 3.0 * float(np.sum(w * x)) + float(np.sum(x * x)))
+    head = spec["head"]
+    if head in ("ei", "lcb"):
+        return act
+    if head == "eipu":
+        cost = build_gp_predictor(sp, "cost_metric", lambda x: 1.0 + 2.0 * float(x[0]) + 0.3 * seed_off / 1000.0, seed_shift=1)
+        return {INTERNAL_METRIC_NAME: act, "cost_metric": cost}
+    con = build_gp_predictor(sp, INTERNAL_CONSTRAINT_NAME, lambda x: float(x[0]) - 0.6, seed_shift=2)
+    return {INTERNAL_METRIC_NAME: act, INTERNAL_CONSTRAINT_NAME: con}
+
+
+def _make_acq(spec, M, predictor):
+    from syne_tune.optimizer.schedulers.searchers.bayesopt.datatypes.common import INTERNAL_METRIC_NAME
+    head = spec["head"]
+    if head == "ei":
+        return M.EIAcquisitionFunction(predictor, jitter=spec["jitter"])
+    if head == "lcb":
+        return M.LCBAcquisitionFunction(predictor, kappa=spec["kappa"])
+    if head == "eipu":
+        return M.EIpuAcquisitionFunction(predictor, active_metric=INTERNAL_METRIC_NAME, exponent_cost=spec["expo"],
+                                         jitter=spec["jitter"])
+    return M.CEIAcquisitionFunction(predictor, active_metric=INTERNAL_METRIC_NAME, jitter=spec["jitter"])
+
+
+def check_acq_gradient(ctx, acq, x, kw, head, case, what, v_scale_tol=1e-5, h=1e-4):
+    """value with gradient = value alone; EI-type value <= 0; returned gradient vs central differences of the
+    VALUE, all with the same keyword arguments [kw] (predictor=None or an explicit predictor)."""
+    v1 = float(np.asarray(acq.compute_acq(x.reshape(1, -1), **kw)).reshape(-1)[0])
+    v2, g = acq.compute_acq_with_gradient(x.copy(), **kw)
+    g = np.asarray(g, dtype=float).reshape(-1)
+    sig = dict(function="compute_acq_with_gradient", head=head, predictor=what)
+    if not abs(v1 - float(v2)) <= 1e-10 * max(1.0, abs(v1)):
+        ctx.violation("property", "%s (%s): compute_acq_with_gradient value %r differs from compute_acq %r" % (
+            head, what, float(v2), v1), case=case, signature=dict(sig, defect="value_mismatch"))
+    if head in ("ei", "eipu", "cei") and v1 > 1e-15:
+        ctx.violation("property", "%s (%s) acquisition value %r > 0" % (head, what, v1), case=case,
+                      signature=dict(sig, defect="ei_negative"))
+    for i in range(x.size):
+        def f(t):
+            xx = x.copy()
+            xx[i] = t
+            return float(np.asarray(acq.compute_acq(xx.reshape(1, -1), **kw)).reshape(-1)[0])
+        fd = richardson(f, float(x[i]), h)
+        if not abs(fd - g[i]) <= v_scale_tol * max(1.0, abs(g[i]), abs(fd), abs(v1)):
+            ctx.violation("property", "%s (%s): d acq / d x[%d] = %r but central differences of compute_acq give %r" % (
+                head, what, i, float(g[i]), fd), case=case, signature=dict(sig, defect="input_gradient"))
+    return v1, g
+
+
 def run_gp_acq(ctx, specs):
     import syne_tune.optimizer.schedulers.searchers.bayesopt.models.meanstd_acqfunc_impl as M
-    from syne_tune.optimizer.schedulers.searchers.bayesopt.datatypes.common import INTERNAL_METRIC_NAME, INTERNAL_CONSTRAINT_NAME
     for spec in specs:
         case = dict(kind="gp_acq", spec=spec)
         with warnings.catch_warnings():
             warnings.simplefilter("ignore")
-            w = np.random.RandomState(spec["seed"] + 7).normal(size=spec["d"])
-            act = build_gp_predictor(spec, INTERNAL_METRIC_NAME, lambda x: 3.0 * float(np.sum(w * x)) + float(np.sum(x * x)))
             head = spec["head"]
-            if head == "ei":
-                acq = M.EIAcquisitionFunction(act, jitter=spec["jitter"])
-            elif head == "lcb":
-                acq = M.LCBAcquisitionFunction(act, kappa=spec["kappa"])
-            elif head == "eipu":
-                cost = build_gp_predictor(spec, "cost_metric", lambda x: 1.0 + 2.0 * float(x[0]), seed_shift=1)
-                acq = M.EIpuAcquisitionFunction({INTERNAL_METRIC_NAME: act, "cost_metric": cost},
-                                                active_metric=INTERNAL_METRIC_NAME, exponent_cost=spec["expo"],
-                                                jitter=spec["jitter"])
-            else:
-                con = build_gp_predictor(spec, INTERNAL_CONSTRAINT_NAME, lambda x: float(x[0]) - 0.6, seed_shift=2)
-                acq = M.CEIAcquisitionFunction({INTERNAL_METRIC_NAME: act, INTERNAL_CONSTRAINT_NAME: con},
-                                               active_metric=INTERNAL_METRIC_NAME, jitter=spec["jitter"])
+            P1 = _gp_models(spec, M)
+            acq = _make_acq(spec, M, P1)
             x = np.array(spec["x"], dtype=float)
-            v1 = float(np.asarray(acq.compute_acq(x.reshape(1, -1))).reshape(-1)[0])
-            v2, g = acq.compute_acq_with_gradient(x.copy())
-            g = np.asarray(g, dtype=float).reshape(-1)
             ctx.count(("gp_acq", spec), nontrivial=spec["pending"] > 0 and spec["nf"] > 1)
             ctx.h("gp_acq_head", head)
             ctx.h("gp_acq_normalize_targets", spec.get("normalize", True))
             ctx.h("gp_acq_fantasies", spec["nf"] if spec["pending"] else 1)
-            sig = dict(function="compute_acq_with_gradient", head=head)
-            if not abs(v1 - float(v2)) <= 1e-10 * max(1.0, abs(v1)):
-                ctx.violation("property", "%s: compute_acq_with_gradient value %r differs from compute_acq %r" % (head, float(v2), v1),
-                              case=case, signature=dict(sig, defect="value_mismatch"))
-            if head in ("ei", "eipu", "cei") and v1 > 1e-15:
-                ctx.violation("property", "%s acquisition value %r > 0" % (head, v1), case=case, signature=dict(sig, defect="ei_negative"))
-            for i in range(x.size):
-                def f(t):
-                    xx = x.copy()
-                    xx[i] = t
-                    return float(np.asarray(acq.compute_acq(xx.reshape(1, -1))).reshape(-1)[0])
-                fd = richardson(f, float(x[i]), 1e-4)
-                if not abs(fd - g[i]) <= 1e-5 * max(1.0, abs(g[i]), abs(fd), abs(v1)):
-                    ctx.violation("property", "%s: d acq / d x[%d] = %r but central differences of compute_acq give %r" % (
-                        head, i, float(g[i]), fd), case=case, signature=dict(sig, defect="input_gradient"))
+            ctx.h("gp_acq_predictor_arg", "explicit" if spec.get("explicit") else "default")
+            check_acq_gradient(ctx, acq, x, {}, head, case, "default predictor")
+            if spec.get("explicit"):
+                # the documented optional argument: evaluate the SAME acquisition object on another fitted
+                # surrogate (other data, same number of fantasies)
+                P2 = _gp_models(spec, M, seed_off=1000)
+                v, g = check_acq_gradient(ctx, acq, x, dict(predictor=P2), head, case, "explicit predictor")
+                # ... and it must agree with an acquisition object constructed on that surrogate
+                acq2 = _make_acq(spec, M, _gp_models(spec, M, seed_off=1000))
+                v0, g0 = acq2.compute_acq_with_gradient(x.copy())
+                g0 = np.asarray(g0, dtype=float).reshape(-1)
+                if not (abs(v - float(v0)) <= 1e-9 * max(1.0, abs(v)) and np.allclose(g, g0, rtol=1e-7, atol=1e-9 * max(1.0, abs(v)))):
+                    ctx.violation("property", "%s: compute_acq_with_gradient(x, predictor=P2) = (%r, %r) differs from the "
+                                  "acquisition function constructed on P2: (%r, %r)" % (head, v, g.tolist(), float(v0), g0.tolist()),
+                                  case=case, signature=dict(function="compute_acq_with_gradient", head=head,
+                                                            predictor="explicit predictor", defect="depends_on_constructor_predictor"))
 
 
-def gen_fit_spec(rng):
-    return dict(seed=rng.randrange(10 ** 6), d=rng.choice([1, 2, 3]), n=rng.randint(2, 7), ard=rng.random() < 0.5,
+# --------------------------------------------------------------------------
+# (a2) explicit predictor argument with locally linear stub predictors (exact Jacobians)
+# --------------------------------------------------------------------------
+def make_linear_stub_class():
+    from syne_tune.optimizer.schedulers.searchers.bayesopt.models.model_base import BasePredictor
+
+    class LinearStub(BasePredictor):
+        """mean(x) = m0 + Jm (x - x0), std(x) = s0 + Js . (x - x0); backward_gradient is the exact chain rule"""
+
+        def __init__(self, metric, p, keys=("mean", "std")):
+            super().__init__(state=None, active_metric=metric)
+            self.m0 = np.asarray(p["m0"], dtype=float).reshape(-1)
+            self.Jm = np.asarray(p["Jm"], dtype=float).reshape(self.m0.size, -1)
+            self.s0, self.Js = float(p["s0"]), np.asarray(p["Js"], dtype=float).reshape(-1)
+            self.x0 = np.asarray(p["x0"], dtype=float).reshape(-1)
+            self.cand = np.asarray(p["cand"], dtype=float)
+            self.keys = set(keys)
+            self.backward_calls = 0
+
+        def keys_predict(self):
+            return set(self.keys)
+
+        def predict(self, inputs):
+            dx = np.asarray(inputs, dtype=float) - self.x0.reshape(1, -1)
+            res = {"mean": self.m0.reshape(1, -1) + dx @ self.Jm.T}
+            if "std" in self.keys:
+                res["std"] = self.s0 + dx @ self.Js
+            return [res]
+
+        def predict_mean_current_candidates(self):
+            return [self.cand.copy()]
+
+        def backward_gradient(self, input, head_gradients):
+            self.backward_calls += 1
+            hg = head_gradients[0]
+            g = np.asarray(hg["mean"], dtype=float).reshape(-1) @ self.Jm
+            if "std" in hg:
+                g = g + float(np.asarray(hg["std"]).reshape(-1)[0]) * self.Js
+            return [g.reshape(np.asarray(input).shape)]
+
+    return LinearStub
+
+
+def gen_linear_spec(rng):
+    d = rng.choice([1, 2, 3])
+    nf = rng.choice([1, 2, 3])
+    x0 = [rng.uniform(0.2, 0.8) for _ in range(d)]
+
+    def model(kind):
+        m0 = [rng.gauss(0, 1) for _ in range(nf)]
+        p = dict(m0=m0, Jm=[[rng.gauss(0, 1) for _ in range(d)] for _ in range(nf)], s0=rng.uniform(0.3, 2.0),
+                 Js=[rng.uniform(-0.5, 0.5) for _ in range(d)], x0=x0,
+                 cand=[[m + rng.uniform(-1.0, 2.0) for m in m0] for _ in range(rng.randint(1, 3))])
+        if kind == "cost":
+            p["m0"] = [rng.uniform(0.5, 4.0) for _ in range(nf)]
+            p["Jm"] = [[rng.uniform(-0.3, 0.3) for _ in range(d)] for _ in range(nf)]
+        if kind == "constr":
+            p["cand"] = [[rng.gauss(-0.3, 1.0) for _ in range(nf)] for _ in range(len(p["cand"]))]
+        return p
+    head = rng.choice(["ei", "lcb", "eipu", "cei"])
+    sec = {"eipu": "cost", "cei": "constr"}.get(head)
+    spec = dict(head=head, d=d, nf=nf, x=x0, kappa=rng.uniform(0.3, 3.0), expo=rng.choice([1.0, 0.5]),
+                jitter=rng.choice([0.01, 0.1]), P1=dict(active=model("active")), P2=dict(active=model("active")))
+    if sec:
+        for P in ("P1", "P2"):
+            spec[P][sec] = model(sec)
+            if sec == "constr":  # candidate matrices of the two outputs must have one shape
+                n_obs = len(spec[P]["active"]["cand"])
+                spec[P][sec]["cand"] = [[rng.gauss(-0.3, 1.0) for _ in range(nf)] for _ in range(n_obs)]
+    return spec
+
+
+def run_linear_explicit(ctx, specs):
+    import syne_tune.optimizer.schedulers.searchers.bayesopt.models.meanstd_acqfunc_impl as M
+    from syne_tune.optimizer.schedulers.searchers.bayesopt.datatypes.common import INTERNAL_METRIC_NAME, INTERNAL_CONSTRAINT_NAME
+    Lin = make_linear_stub_class()
+
+    def build(spec, P):
+        act = Lin(INTERNAL_METRIC_NAME, spec[P]["active"])
+        if spec["head"] in ("ei", "lcb"):
+            return act
+        if spec["head"] == "eipu":
+            return {INTERNAL_METRIC_NAME: act, "cost_metric": Lin("cost_metric", spec[P]["cost"], keys=("mean",))}
+        return {INTERNAL_METRIC_NAME: act, INTERNAL_CONSTRAINT_NAME: Lin(INTERNAL_CONSTRAINT_NAME, spec[P]["constr"])}
+
+    for spec in specs:
+        case = dict(kind="linear", spec=spec)
+        with warnings.catch_warnings():
+            warnings.simplefilter("ignore")
+            P1, P2 = build(spec, "P1"), build(spec, "P2")
+            acq = _make_acq(spec, M, P1)
+            x = np.array(spec["x"], dtype=float)
+            ctx.count(("linear", spec), nontrivial=True)
+            ctx.h("linear_stub_head", spec["head"])
+            check_acq_gradient(ctx, acq, x, {}, spec["head"], case, "default predictor (linear stub)", v_scale_tol=2e-6)
+            check_acq_gradient(ctx, acq, x, dict(predictor=P2), spec["head"], case, "explicit predictor (linear stub)",
+                               v_scale_tol=2e-6)
+
+
+# Box-Cox parameter values AT the case distinction of BoxCoxTargetTransform.forward (|lambda| < 1e-7 uses the
+# second-order expansion) and at the corners of its box [-1, 2]
+BOXCOX_BRANCH_POINTS = [0.0, 5e-8, -5e-8, 1e-7, -1e-7, 1e-7 - 1e-12, -1e-7 + 1e-12, 1e-7 + 1e-12, -1e-7 - 1e-12,
+                        1e-9, -3e-8, -1.0, 2.0]
+
+
+def gen_fit_spec(rng, k=None):
+    spec = dict(seed=rng.randrange(10 ** 6), d=rng.choice([1, 2, 3]), n=rng.randint(2, 7), ard=rng.random() < 0.5,
                 mean=rng.choice(["scalar", "zero"]), transform=rng.choice(["none", "none", "boxcox"]),
-                warp=rng.random() < 0.25)
+                warp=rng.random() < 0.25, lam=None, bound=None)
+    if k is not None and k < len(BOXCOX_BRANCH_POINTS):   # every run visits every branch point once
+        spec["transform"], spec["lam"] = "boxcox", BOXCOX_BRANCH_POINTS[k]
+        spec["n"] = max(spec["n"], 3)
+    elif spec["transform"] == "boxcox" and rng.random() < 0.4:
+        spec["lam"] = rng.choice(BOXCOX_BRANCH_POINTS)
+    if rng.random() < 0.35:   # one bounded parameter (not the noise variance) exactly at a corner of its box
+        spec["bound"] = [rng.random(), rng.choice(["lo", "hi"])]
+    return spec
 
 
 def run_fit_objective(ctx, specs):
@@ -607,6 +759,24 @@ def run_fit_objective(ctx, specs):
                     for i in conv.name_to_index[name]:
                         v[i] = rs.uniform(-7.0, 0.0)
 
+            placed = []
+            if spec.get("lam") is not None:
+                for name in conv.names:
+                    if "boxcox_lambda" in name:
+                        for i in conv.name_to_index[name]:
+                            v[i] = float(spec["lam"])
+                            placed.append(int(i))
+                            ctx.h("fit_boxcox_lambda_at", repr(float(spec["lam"])))
+            if spec.get("bound"):
+                elig = [(int(i), bounds[name]) for name in conv.names for i in conv.name_to_index[name]
+                        if "noise_variance" not in name and int(i) not in placed
+                        and bounds.get(name, (None, None))[0] is not None and bounds.get(name, (None, None))[1] is not None]
+                if elig:
+                    i, (lo, hi) = elig[int(spec["bound"][0] * len(elig)) % len(elig)]
+                    v[i] = float(lo) if spec["bound"][1] == "lo" else float(hi)
+                    pn = [nm for nm in conv.names if i in list(conv.name_to_index[nm])][0]
+                    ctx.h("fit_param_at_box_corner", pn.split("_", 1)[-1] + ":" + spec["bound"][1])
+
             def val(vec):
                 return float(np.asarray(obj(np.array(vec, dtype=float))[0]).reshape(-1)[0])
             f0, g = obj(v.copy())
@@ -637,8 +807,12 @@ def run(ctx, replay=None):
                 "(mean, std, cost / constraint) fantasy arrays (nf 1..5, broadcasting both ways, clamped std/cost, "
                 "infeasible columns), compute_acq vs compute_acq_with_gradient vs PrimFloat model; (b) "
                 "cholesky_factorization_backward / AddJitterOp_vjp on random lower-triangular L (n 1..6) vs the "
-                "executable model; (c) the same acquisition classes on tiny fitted GPs and (d) the scipy fitting "
-                "objective, gradients vs Richardson central differences. Non-trivial = a head case with more than "
+                "executable model; (c) the same acquisition classes on tiny fitted GPs, with the default predictor and "
+                "with an explicit predictor= argument (a second fitted surrogate), (a2) the same on locally linear "
+                "stub predictors with exact Jacobians, and (d) the scipy fitting objective at random interior points, "
+                "at every branch point of the Box-Cox case distinction (lambda in {0, +-5e-8, +-1e-7 +- 1e-12, ...}, "
+                "box corners -1, 2) and with one parameter at a corner of its box; gradients vs Richardson central "
+                "differences (step 1e-4, wider than the branch). Non-trivial = a head case with more than "
                 "one fantasy column or a second output model; a Cholesky case with n >= 2; a GP case with pending "
                 "candidates and nf > 1; a fitting case with n >= 3; distinct by content hash")
     rng = ctx.rng
@@ -653,10 +827,13 @@ def run(ctx, replay=None):
             run_gp_acq(ctx, [replay["spec"]])
         elif kind == "fit":
             run_fit_objective(ctx, [replay["spec"]])
+        elif kind == "linear":
+            run_linear_explicit(ctx, [replay["spec"]])
         return
     n_head = ctx.n(250, 2500)
     specs = [gen_head_spec(rng, head) for head in ("ei", "lcb", "eipu", "cei") for _ in range(n_head)]
     run_heads(ctx, specs)
     run_chol(ctx, [gen_chol_spec(rng) for _ in range(ctx.n(200, 2000))])
     run_gp_acq(ctx, [gen_gp_spec(rng) for _ in range(ctx.n(120, 1200))])
-    run_fit_objective(ctx, [gen_fit_spec(rng) for _ in range(ctx.n(80, 600))])
+    run_linear_explicit(ctx, [gen_linear_spec(rng) for _ in range(ctx.n(150, 2000))])
+    run_fit_objective(ctx, [gen_fit_spec(rng, k) for k in range(ctx.n(80, 600))])
